@@ -274,7 +274,10 @@ def families(tier='quick', seed=0):
             ('A and (B or C)', ('and', ('id', 'A'), ('or', ('id', 'B'), ('id', 'C'))), abc),
             ('(A and B) or C', ('or', ('and', ('id', 'A'), ('id', 'B')), ('id', 'C')), abc),
             ('not not A', ('not', ('not', ('id', 'A'))), {'A': A}),
-            ('not A and not B', ('and', ('not', ('id', 'A')), ('not', ('id', 'B'))), ab)):
+            ('not A and not B', ('and', ('not', ('id', 'A')), ('not', ('id', 'B'))), ab),
+            ('not A or not B', ('or', ('not', ('id', 'A')), ('not', ('id', 'B'))), ab),
+            ('not A or not B or C', ('or', ('or', ('not', ('id', 'A')), ('not', ('id', 'B'))), ('id', 'C')), abc),
+            ('not (A or B) and C', ('and', ('not', ('or', ('id', 'A'), ('id', 'B'))), ('id', 'C')), abc)):
         add('condition', nm, {'idents': ids, 'cond': cond})
     # negation over one multi-entry mapping, both written orders (conjunction order is observable under not)
     add('condition', 'not {f,g}', {'idents': {'A': M((K('f'), S('a*')), (K('g'), S('>5')))}, 'cond': ('not', ('id', 'A'))})
@@ -366,6 +369,12 @@ def families(tier='quick', seed=0):
                                                         'cond': ('or', ('or', ('and', ('id', 'A'), ('cmp', '==', ('int', 'g'), ('int', 'k'))), ('id', 'B')), ('id', 'C'))})
     add('matrix', 'row with unshared field', {'idents': {'A': M((K('f'), S('a*')), (K('h'), S('b'))), 'B': M((K('g'), ('i', 1))), 'C': M((K('g'), ('i', 2)))},
                                              'cond': ('or', ('or', ('and', ('id', 'A'), ('cmp', '==', ('int', 'g'), ('ci', 3))), ('id', 'B')), ('id', 'C'))})
+    add('shake', 'A or B or C repeated needle', {'idents': {'A': M((K('f'), S('a*'))), 'B': M((K('f'), S('a*'))), 'C': M((K('f'), S('*b')))},
+                                                 'cond': ('or', ('or', ('id', 'A'), ('id', 'B')), ('id', 'C'))})
+    # field names of several words, plain and under key modifiers
+    add('modifier', 'multi-word keys', {'idents': {'A': M((K('Command Line'), S('a*')), (K('Event ID', 'str'), S('4*')))}, 'cond': ('id', 'A')})
+    add('modifier', 'all(multi-word key)', {'idents': {'A': M((K('Command Line', 'all'), L(S('a*'), S('*b'))))}, 'cond': ('id', 'A')})
+    add('modifier', 'int(multi-word key)', {'idents': {'A': M((K('Event ID', 'int'), ('i', 1)), (K('g'), S('a')))}, 'cond': ('id', 'A')})
     add('shake', 'A or B same field', {'idents': {'A': M((K('f'), S('a*'))), 'B': M((K('f'), S('*b')))}, 'cond': ('or', ('id', 'A'), ('id', 'B'))})
     add('shake', 'A or B or C same field', {'idents': {'A': M((K('f'), S('a*'))), 'B': M((K('f'), S('*b'))), 'C': M((K('f'), S('ic')))},
                                             'cond': ('or', ('or', ('id', 'A'), ('id', 'B')), ('id', 'C'))})
